@@ -10,7 +10,7 @@
    Proofs/UrlC10.v), each of which ./check C10 samples against the real library. *)
 From Coq Require Import List NArith ZArith Bool.
 From Wpull Require Import Model.UrlLib Model.Url Proofs.UrlPeProofs Proofs.UrlPathProofs Proofs.UrlEncProofs
-  Proofs.UrlNormProofs Proofs.UrlC10 Proofs.UrlEquivProofs.
+  Proofs.UrlNormProofs Proofs.UrlC10 Proofs.UrlEquivProofs Proofs.UrlEquiv2Proofs.
 Import ListNotations.
 Open Scope N_scope.
 
@@ -79,9 +79,10 @@ Print Assumptions C10_utf8_encoder_ok.
    letter case, explicit default port, inserted "/.", "/x/..", "//", hex-digit case inside
    escapes, a dropped fragment and IPv4/IPv6 re-spelling, spelling_equiv s1 s2 -> both parse
    and url_of is equal.  Proved below: scheme case for the whole URL, for ARBITRARY input
-   text; host case, and dot / empty segment insertion, at the level of the component
-   normalizer.  Escape case, default port, fragment and IP re-spelling are checked on the
-   implementation for every generated URL (variants), not proved. *)
+   text; an explicit default port at the level of parse_network (the text after the scheme);
+   host case, and dot / empty segment insertion, at the level of the component normalizer.
+   Escape case, fragment and IP re-spelling are checked on the implementation for every
+   generated URL (variants), not proved. *)
 
 (* two spellings that differ only in the letter case of an ASCII scheme: both are rejected
    with the same kind, or both parse, and a network URL gets the same normalized form and
@@ -102,6 +103,24 @@ Theorem C10_equiv_scheme_case_partial :
     end.
 Proof. exact parse_scheme_case. Qed.
 Print Assumptions C10_equiv_scheme_case_partial.
+
+(* an explicit default port: after the scheme, "//A R" and "//A:<default port> R" (A the
+   authority, free of / ? #, with a port-less host; R empty or starting with / ? #) are both
+   rejected with the same kind, or parse to the same normalized form and components *)
+Theorem C10_equiv_default_port_partial :
+  forall enc idna_o ipv6_o int_o unq_o (url url' scheme : str) (dport : N) (A R h : str),
+    default_port scheme = Some dport ->
+    memb 47 A = false -> memb 63 A = false -> memb 35 A = false -> rest_ok R ->
+    parse_host idna_o ipv6_o int_o (snd (parse_authority A)) = Ok (h, None) ->
+    match parse_network enc idna_o ipv6_o int_o unq_o url scheme dport ([47; 47] ++ A ++ R),
+          parse_network enc idna_o ipv6_o int_o unq_o url' scheme dport ([47; 47] ++ (A ++ 58 :: dec_of_N dport) ++ R) with
+    | Ok i, Ok i' => url_of enc i = url_of enc i' /\ u_scheme i = u_scheme i' /\ u_hostname i = u_hostname i' /\
+                     u_port i = u_port i' /\ u_path i = u_path i' /\ u_query i = u_query i'
+    | Err k, Err k' => k = k'
+    | _, _ => False
+    end.
+Proof. exact parse_network_default_port. Qed.
+Print Assumptions C10_equiv_default_port_partial.
 
 (* host names that differ only in ASCII letter case normalize alike *)
 Theorem C10_equiv_host_case_partial :
@@ -196,6 +215,8 @@ Proof. vm_compute. repeat split. Qed.
    rest, under the concrete instance; /a/./b, /a//b and /a/x/../b flatten to /a/b *)
 Example C10_equiv_nonvacuous :
   ex_url ([72;84;84;80] ++ 58 :: [47;47;104;47;97]) = ex_url ([104;116;116;112] ++ 58 :: [47;47;104;47;97])
+  /\ ex_url [104;116;116;112;58;47;47;104;58;56;48;47;97] = ex_url [104;116;116;112;58;47;47;104;47;97]
+  /\ parse_host (fun _ => None) ex_ipv6 (fun _ _ => None) (snd (parse_authority [104])) = Ok ([104], None)
   /\ ex_url ([72;84;84;80] ++ 58 :: [47;47;104;47;97]) = Some [104;116;116;112;58;47;47;104;47;97]
   /\ flatten_path true (47 :: [97] ++ [47; 46; 47] ++ [98]) = [47;97;47;98]
   /\ flatten_path true (47 :: [97] ++ [47; 47] ++ [98]) = [47;97;47;98]
